@@ -14,6 +14,9 @@ import (
 // filter operand, a nested filter, a union …) is made right before the case's own Parse, and 10%
 // of the paths whose first step is a name, a wildcard, a bracket or a filter are spelled without
 // the leading `$` (the recorded text of a first dot-name / `*` then lacks its dot, as in C18).
+// One case in four draws the member names of 45% of its objects from families of long names that agree in their
+// first 7, 8, 9 or more bytes (GenOpts.LongKeys); one case in sixteen is a comparison filter over numbers at the
+// edge of float64 / int64 in a UseNumber document, with the model-free oracle of b10_helpers.go.
 
 type c01 struct{}
 
@@ -105,6 +108,12 @@ func (c01) Exec(seed int64, i int, tier string) Record {
 		return c01ReentCase(CaseRng(seed, "C01", i))
 	case 10:
 		return c01SecondCallCase(CaseRng(seed, "C01", i))
+	case 2:
+		// numbers at the edge of float64 / int64 in a UseNumber document (b10_helpers.go): exactly the members the
+		// comparison holds for — a number compares as the float64 nearest to its text, ±Inf beyond the range
+		rec := b10EdgeRun(CaseRng(seed, "C01", i), false)
+		rec.Tags = append(rec.Tags, "class:number-edge", "step:child", "step:filter", "decode:jnum")
+		return rec
 	}
 	r := CaseRng(seed, "C01", i)
 	o := DefaultOpts()
@@ -115,6 +124,8 @@ func (c01) Exec(seed int64, i int, tier string) Record {
 	case 5:
 		o.ErrBias = 3
 	}
+	// one case in four: objects whose member names agree in their first 7, 8, 9 … bytes (byte order vs length order)
+	o.LongKeys = i%4 == 1
 	doc, p := GenCase(r, o)
 	if i%8 == 3 && r.Chance(60) {
 		doc, p = genNestedRootCase(r)
@@ -149,6 +160,9 @@ func (c01) Exec(seed int64, i int, tier string) Record {
 		}
 	}
 	dollarless := len(extraTags) > 0
+	if o.LongKeys {
+		extraTags = append(extraTags, longKeyTags(doc)...)
+	}
 	if r.Chance(20) {
 		// a Parse that fails half-way right before: whatever it leaves behind must not reach this case
 		fp := c19FailPaths[r.Intn(len(c19FailPaths))]
